@@ -104,6 +104,9 @@ def replay_file(doc):
         r = check_resume(doc["scenario"], doc["point"], doc["mode"], _trajectory(ref))
         hit = r is not None and r[0] == doc["clause"]
         return hit, (f"{r[0]}: {r[1]}" if hit else "clause holds on this tree")
+    if doc.get("kind") == "algo_monitor":
+        from . import algomon
+        return algomon.replay(doc)
     if doc.get("kind") == "exception":
         import importlib
         try:
